@@ -9,6 +9,8 @@ CLAUSES = {6: "C06 monitor failed: the attached input and output streams belong 
 
 def check(run):
     vlib.static_obligations(run)
+    import c09
+    c09.routes_obligation(run)      # /io and /io/ are inOutHandler's and nothing else routes to the shell handlers
     binp = B.build(run)
     if not binp:
         return
